@@ -39,3 +39,10 @@ func AllOf(bs ...bool) bool
 // Ite: value-level conditional without a branch.
 func IteInt(c bool, a, b int) int
 func Debug(tag string, v any)
+
+// Stub*: draws made inside engine-only stubs (functions installed with
+// Replace, and methods of the fake values they return).  They are part of the
+// solver model but are skipped by native replays, where the real code runs.
+func StubBool() bool
+func StubU64() uint64
+func StubBytes(n int) []byte
